@@ -454,6 +454,7 @@ class Ctx(object):
         self.verifying_fq_transparent = None
         self.current_exc = None
         self.str_domains = {}
+        self.param_classes = {}
 
     def fresh(self, name, sort=I):
         self.n += 1
@@ -547,6 +548,8 @@ def truth(ctx, st, v, node=None):
         return z3.And(z3.Not(v.z[0]), v.z[1] != 0)
     if v.k == "tuple":
         return z3.BoolVal(len(v.z) > 0)
+    if v.k == "optref":
+        return z3.Not(v.z[0])
     if v.k == "ref" and v.x and v.x.startswith("list"):
         return ctx.field_array(st, "len", AII)[v.z] != 0
     if v.k == "conc":
@@ -577,6 +580,8 @@ def sv_eq(ctx, st, a, b, node=None):
             o = a if ka == "optref" else b
             return o.z[0]
         return z3.BoolVal(False)
+    if ka == "optref" and kb == "optref":
+        return z3.And(a.z[0] == b.z[0], z3.Or(a.z[0], a.z[1] == b.z[1]))
     if ka == "optint" and kb in ("int", "bool"):
         return z3.And(z3.Not(a.z[0]), a.z[1] == as_int(ctx, st, b))
     if kb == "optint" and ka in ("int", "bool"):
@@ -610,7 +615,7 @@ def lift_conc(ctx, v, node=None):
         return NONE
     if isinstance(o, str):
         return SV("str", ctx.strid(o))
-    if isinstance(o, tuple):
+    if type(o) is tuple:
         return mk_tuple([lift_conc(ctx, mk_conc(x), node) for x in o])
     return v
 
@@ -645,6 +650,19 @@ def sv_ite(ctx, c, a, b):
         return mk_tuple([sv_ite(ctx, c, x, y) for x, y in zip(a.z, b.z)])
     if ka == kb == "conc" and a.z is b.z:
         return a
+    optr = {"ref", "none", "optref"}
+    if ka in optr and kb in optr and "ref" in (ka, kb) or "optref" in (ka, kb) and ka in optr and kb in optr:
+
+        def rparts(v):
+            if v.k == "ref":
+                return z3.BoolVal(False), v.z, v.x
+            if v.k == "none":
+                return z3.BoolVal(True), z3.IntVal(0), None
+            return v.z[0], v.z[1], v.x
+
+        an, av, ax = rparts(a)
+        bn, bv, bx = rparts(b)
+        return SV("optref", (z3.If(c, an, bn), z3.If(c, av, bv)), ax or bx)
     opt = {"int", "none", "optint"}
     if ka in opt and kb in opt:
 
@@ -1270,11 +1288,19 @@ class Exec(object):
             except AttributeError:
                 raise Unsupported("attribute %s of constant" % e.attr, e)
         if base.k == "ref":
-            if (base.x or "").startswith("obj") and e.attr in self.reg.fields:
+            if (base.x or "").startswith(("obj", "opaque", "file")) and e.attr in self.reg.fields:
                 return self.load_field(st, base, e.attr, e)
             return mk_conc(BoundMethod(base, e.attr))
         if base.k in ("int", "bool") and e.attr == "bit_length":
             return mk_conc(BoundMethod(base, e.attr))
+        if base.k == "int" and isinstance(base.x, type) and e.attr in ("name", "value"):
+            if e.attr == "value":
+                return mk_int(base.z)
+            res = None
+            for m in base.x:
+                v = SV("str", ctx.strid(m.name), m.name)
+                res = v if res is None else SV("str", z3.If(base.z == int(m), v.z, res.z))
+            return res
         raise Unsupported("attribute %s of %s" % (e.attr, base.k), e)
 
     # ---- calls -------------------------------------------------------------
@@ -1323,6 +1349,7 @@ class BoundMethod(object):
 
 
 GHOST_NAMES = {
+    "is_fresh",
     "store",
     "define",
     "use_forall",
